@@ -394,7 +394,7 @@ var zzC13Deg = map[string]string{
 // zzC13DegList is the value of "deglist:": a list of degenerate strings.
 func zzC13DegList() (l []any) {
 	for _, s := range []string{
-		"", " ", "  ", "\t", " \t ", "\n", "#", " #", "\t# c", "#c", "[", "[/", "[//]", "[/]", "[/x/", "[/x/]",
+		"", " ", "  ", "\t", " \t ", "#", " #", "\t# c", "#c", "[", "[/", "[//]", "[/]", "[/x/", "[/x/]",
 		"[/x/] ", "[/x/]#", "[/x/]quic://", "[/x/]quic://8.8.8.8", "[/x/] quic://8.8.8.8", "://", "quic://",
 		"quic://[::1", "quic://a:b:c", "quic://:784", " quic://8.8.8.8", "quic://8.8.8.8 ", "quic:// ", "quic",
 		" 127.0.0.1 ", ".", " .", ". ",
@@ -1420,8 +1420,8 @@ func TestZZVerifC13Replay(t *testing.T) {
 	var wg sync.WaitGroup
 	next := make(chan int)
 	nw := runtime.GOMAXPROCS(0)
-	if nw > 8 {
-		nw = 8
+	if nw > 12 {
+		nw = 12
 	}
 	for i := 0; i < nw; i++ {
 		wg.Add(1)
